@@ -75,6 +75,14 @@ CLAIMED.update({
          "DESIGN.md §3.7 LX, §4 C13",
          "Stack.less, Signature.less, the Aggregate comparator and uint64Slice.Less are lexicographic products of strict (weak) orders, hence strict weak orders for every set of buckets; the key order puts the crashing goroutine's bucket first, then more package-main frames, then per-location counts with GoMod/GOPATH/GoPkg before Stdlib; merged frames keep Location/IsPkgMain.",
          "The recogniser accepts only the enumerated idioms; a comparator written differently is reported as undecidable rather than accepted."),
+ "C14": ("inclusion-based points-to analysis (written for this task) with a synthetic snapshot object: every write site reachable from aggregation/rendering; package-level state; shared Opts slice; template identifiers",
+         "DESIGN.md §3.1, §3.4 EF, §4 C14",
+         "No store, map update, delete, copy, in-place append or in-place sort reachable from Aggregate/IsRace/ToHTML/template call-backs/console renderers can target snapshot memory; merges build fresh values; no package-level state of the library is written after init or handed to a non-read-only callee; the caller's Opts and the slice they share with the snapshot are never written; template identifiers resolve to fields or analysed methods. No write to shared memory implies no data race between concurrent scans/aggregations/renderings.",
+         "May-alias over-approximation (context- and field-insensitive); stdlib behaviour by table (read-only, concurrency-safe: regexp, html/template, log). Races inside the standard library are not decided."),
+ "C15": ("all-paths rules on nameArguments, its visitor closure and Args.walk; gate rule; points-to 'writes only Arg.Name'",
+         "DESIGN.md §3.11 NM, §4 C15",
+         "Only pointer-classified values are recorded, per value, in place, through nested aggregates; inPrimary is OR-accumulated; phase 1 = recurring values seen in the first goroutine, phase 2 = the rest not seen there; one number per value, same number for all its occurrences, advancing by one; keys totally sorted ascending; naming runs iff the option is set and writes only Arg.Name; IsPtr is a function of the value.",
+         "Nothing is claimed about pointerFloor/Ceiling as a classifier of real pointers (a guess by design)."),
 })
 for k in list(CLAIMED): NA.pop(k, None)
 try:
